@@ -1717,7 +1717,13 @@ class Process:
         try:
             return readlink(path)
         except (FileNotFoundError, ProcessLookupError):
-            if os.path.lexists(f"{self._procfs_path}/{self.pid}"):
+            # Do not use os.path.lexists(): it swallows EACCES / EPERM
+            # and would make us re-raise a bare FileNotFoundError.
+            try:
+                os.lstat(f"{self._procfs_path}/{self.pid}")
+            except (FileNotFoundError, ProcessLookupError):
+                pass
+            else:
                 self._raise_if_zombie()
                 if fallback is not UNSET:
                     return fallback
